@@ -220,6 +220,7 @@ func addViolation(st *Stats, v Violation, tr Trace) {
 		if v.Detail == nil {
 			v.Detail = map[string]any{}
 		}
+		v.Detail = SanitizeDetail(v.Detail)
 		v.Detail["trace_init"] = tr.Init
 		v.Detail["trace_ops"] = tr.Ops
 		st.Violations = append(st.Violations, v)
